@@ -848,6 +848,19 @@ def splitlines(text: str) -> list[str]:
     return re.split(r"\n|\r\n?", text)
 
 
+def utf16_to_index(line: str, col: int) -> int:
+    """Convert an LSP ``character`` offset, which counts UTF-16 code units,
+    into an index of ``line``"""
+    if col <= 0 or line.isascii():
+        return col
+    units = 0
+    for i, char in enumerate(line):
+        if units >= col:
+            return i
+        units += 2 if ord(char) > 0xFFFF else 1
+    return len(line) + col - units
+
+
 class FortranFile:
     def __init__(self, path: str = None, pp_suffixes: list = None):
         self.path: str = path
@@ -981,6 +994,12 @@ class FortranFile:
         if start_line == self.nLines:
             self.set_contents(self.contents_split + text_split)
             return True
+
+        # Positions count UTF-16 code units, which differ from string indices
+        # behind characters outside the Basic Multilingual Plane
+        start_col = utf16_to_index(self.contents_split[start_line], start_col)
+        if end_line < self.nLines:
+            end_col = utf16_to_index(self.contents_split[end_line], end_col)
 
         # Check for single line edit
         if (start_line == end_line) and (len(text_split) == 1):
